@@ -2,6 +2,7 @@
 # tools/run_all.sh [quick|thorough] [seed]  - run every check, print one summary line each
 TIER=${1:-quick}; SEED=${2:-1}
 cd "$(dirname "$0")/.." || exit 2
+mkdir -p out
 rc=0
 for p in C01 C02 C03 C04 C05 C06 C07 C08 C09 C10 C11 C12 C13 C14 C15 C16 C17 C18; do
   VERIF_SEED=$SEED ./check $p --tier $TIER > out/run_$p.log 2>&1; r=$?
